@@ -275,6 +275,7 @@ func TestC18(t *testing.T) {
 	c18Rates(t, tr, rng, a)
 	c18LendTracker(t, tr, rng, a)
 	c18VaultFlow(t, tr, rng, a)
+	c18LockerFlow(t, tr, NewRng(c18Mix(seed(), 7)), a)
 }
 
 // c18Float: CalculationOfRewards called directly; groups of related inputs.
